@@ -2,25 +2,25 @@
 
 package writer
 
-import "time"
-
 // Hooks for the /verif correspondence harness (build tag verif, injected with -overlay; not part of the repo).
 
-// VerifDrainPqsRequests makes the listener goroutine (listenBackFillAndEmptyPQSRequests) process every
-// request queued before the call: it sends 2*PQS_FLUSH_SIZE requests that ask for nothing (all flags
-// false) and waits until the channel is empty.  The listener flushes inline whenever it holds
-// PQS_FLUSH_SIZE requests, so the flush that contains the last earlier request has completed before
-// the listener takes the last of these.  Returns false if the channel was not emptied within 5 s.
-func VerifDrainPqsRequests() bool {
-	for i := 0; i < 2*PQS_FLUSH_SIZE; i++ {
-		pqsChan <- PQSChanMeta{}
-	}
-	deadline := time.Now().Add(5 * time.Second)
-	for len(pqsChan) > 0 {
-		if time.Now().After(deadline) {
-			return false
+// VerifDrainPqsRequests takes every request that is queued in pqsChan and hands them to
+// processBackFillAndEmptyPQSRequests, the function the listener goroutine
+// (listenBackFillAndEmptyPQSRequests) calls every PQS_TICKER seconds or PQS_FLUSH_SIZE requests.
+// In a process that started on a fresh data directory that goroutine does not run at all (initSmr
+// returns before `go listenBackFillAndEmptyPQSRequests()` when it had to create segmeta.json), so
+// nothing else reads the channel.  Returns the number of requests processed.
+func VerifDrainPqsRequests() int {
+	var reqs []PQSChanMeta
+	for {
+		select {
+		case r := <-pqsChan:
+			reqs = append(reqs, r)
+			continue
+		default:
 		}
-		time.Sleep(200 * time.Microsecond)
+		break
 	}
-	return true
+	processBackFillAndEmptyPQSRequests(reqs)
+	return len(reqs)
 }
